@@ -15,6 +15,8 @@ pub struct Fired {
     /// premature end of file delivered by a reader (truncation, not an error)
     pub eof: u64,
     pub calls: u64,
+    /// the sink was handed over by value inside a buffering adapter
+    pub owned_adapter: u64,
 }
 
 fn hard_error(kind: u8) -> io::Error {
@@ -152,6 +154,21 @@ impl Write for FaultySink<'_> {
     }
 }
 
+/// Hands the sink to the code under test the way its fault plan says (`Fault::wrap`): by `&mut`, or
+/// by value inside a buffering adapter that the callee owns and drops.
+pub fn hand<'s>(sink: &'s mut FaultySink<'_>) -> Box<dyn Write + 's> {
+    let wrap = sink.plan.wrap;
+    if wrap != 0 {
+        sink.fired.owned_adapter += 1;
+    }
+    match wrap {
+        0 => Box::new(sink),
+        1 => Box::new(io::BufWriter::new(sink)),
+        2 => Box::new(io::BufWriter::with_capacity(16, sink)),
+        _ => Box::new(io::LineWriter::new(sink)),
+    }
+}
+
 /// Draws a benign fault plan (short transfers and/or EINTR), or none.
 pub fn gen_benign(rng: &mut Rng, len_hint: usize) -> Fault {
     let mut f = Fault::default();
@@ -187,6 +204,10 @@ pub fn gen_benign(rng: &mut Rng, len_hint: usize) -> Fault {
         f.intr.sort_unstable();
         f.intr.dedup();
     }
+    // sinks: handed over by value inside a buffering adapter now and then (readers ignore it)
+    if rng.chance(1, 4) {
+        f.wrap = 1 + rng.below(3) as u8;
+    }
     f
 }
 
@@ -196,7 +217,10 @@ pub fn gen_hard(rng: &mut Rng, len: usize, kinds: &[u8]) -> Fault {
     let mut f = if rng.chance(1, 2) {
         gen_benign(rng, len)
     } else {
-        Fault::default()
+        Fault {
+            wrap: if rng.chance(1, 3) { 1 + rng.below(3) as u8 } else { 0 },
+            ..Default::default()
+        }
     };
     let len = len.max(1);
     let at = match rng.below(8) {
